@@ -1832,6 +1832,8 @@ def import_extra_rules(ctx, prefix, f, where):
         lits = [(a, a["pat"]["e"].get("v")) for a in m_["arms"] if a["pat"].get("k") == "p_lit" and a["pat"]["e"].get("t") == "str"]
         if not lits or not set(v for _a, v in lits) <= {"layer", "supports"}:
             continue
+        if not any(x.get("k") in ("call", "mcall") for a, _v in lits for x in sir.walk(a["body"], into_closures=True)):
+            continue   # a pure classification of the name: the copying is decided below
         for a, v in lits:
             n5 += 1
             cs = [(sir.call_name(x) or "").split("::")[-1] for x in sir.walk(a["body"], into_closures=True) if x.get("k") in ("call", "mcall")]
@@ -1839,7 +1841,16 @@ def import_extra_rules(ctx, prefix, f, where):
             adhoc = [c for c in cs if c.startswith("expect_") or c == "parse_nested_block"]
             obs.append(ob("%s.wrap/condition-copied/%s" % (prefix, v), okc and not adhoc, where, "the content of `%s(..)` is copied by %s" % (v, sorted(set(cs) & copiers)) if okc and not adhoc else "the content of `%s(..)` is read by %s: what does not fit is dropped" % (v, adhoc or cs[:3]),
                           witness=None if okc and not adhoc else "@import 'a' layer(framework.base); is wrapped in `@layer framework{..}`"))
-    if n5 < 2:
+    if n5 < 2 and dc is not None and dc.arm("Function") is not None and "_" not in dc.arm("Function").variants:
+        # no arm per function name: the arm for functions as a whole hands the block to a block routine and reads nothing itself
+        a = dc.arm("Function")
+        cs = [(sir.call_name(x) or "").split("::")[-1] for x in sir.walk(a.body, into_closures=True) if x.get("k") in ("call", "mcall")]
+        adhoc = [c for c in cs if c.startswith("expect_") or c == "parse_nested_block"]
+        okc = bool(set(cs) & copiers)
+        obs.append(ob("%s.wrap/condition-copied" % prefix, False if adhoc else True if okc else None, where,
+                      "the content of a condition function is read by %s: what does not fit is dropped" % adhoc if adhoc else "the content of the condition functions is copied by %s" % sorted(set(cs) & copiers),
+                      witness=None if not adhoc else "@import 'a' layer(framework.base); is wrapped in `@layer framework{..}`"))
+    elif n5 < 2:
         obs.append(ob("%s.wrap/condition-copied" % prefix, None, where, "the arms for `layer` / `supports` are not in a form this rule reads: not decided"))
     # (6) the media list starts at the first identifier or parenthesis after the functions: the scanning loop consumes neither
     if dc is not None:
